@@ -59,6 +59,8 @@ ODS_FEATURES = {
     "repeated-cell": "table:number-columns-repeated=3 on a string cell (twin: three literal cells)",
     "repeated-row": "table:number-rows-repeated=2 on a data row (twin: two literal rows)",
     "empty-sheet": "a sheet without content (one repeated empty filler row, as LibreOffice writes it) among other sheets (twin: one string cell)",
+    "sub-table": "a cell holding a sub-table (table:is-sub-table) with two rows (twin: the same two paragraphs directly in the cell)",
+    "dde-link": "the cached table of a DDE link after the sheets (a table:table that is not a sheet) (twin: none)",
     "nan-cell": "a float cell with office:value=\"NaN\" (legal xsd:double) (twin: 0.5)",
     "inf-cell": "a float cell with office:value=\"INF\" or \"-INF\" (legal xsd:double) (twin: 0.5)",
 }
@@ -91,7 +93,7 @@ def _pkg(kind: str, content: str, meta: str | None, styles: str | None, files: d
 
 
 def _meta(tk, exp, rng) -> str:
-    payloads = ["", " é&<>", " 😀", " אב"]
+    payloads = ["", " é&<>", " 😀", " אב", " Generation Z", " A-Z", " v1.0", " 2024-01-02T03:04:05Z", " 100%", " (draft)", " +00:00"]
     m = {k: exp.ignore(tk.new("t")) + rng.choice(payloads) for k in ("title", "author", "subject", "keywords", "description")}
     exp.meta = dict(m)
     return (f'<?xml version="1.0" encoding="UTF-8"?><office:document-meta {NSDECL}><office:meta>'
@@ -458,6 +460,17 @@ def build_ods(seed: int, feature: str | None = None, twin: bool = False):
                     grow.append({"v": 0.5} if twin else {"any": True})
                     j += 1
                     continue
+                if is_f and feature == "sub-table" and i == 1 and j == 0:
+                    # a cell holding a sub-table (table:is-sub-table): its text belongs to this sheet, it is not a sheet of its own
+                    a, b2 = exp.text(tk.new("c"), s), exp.text(tk.new("c"), s)
+                    if twin:
+                        cells.append(f'<table:table-cell office:value-type="string"><text:p>{a}</text:p><text:p>{b2}</text:p></table:table-cell>')
+                    else:
+                        cells.append(f'<table:table-cell><table:table table:name="Inner{s}" table:is-sub-table="true"><table:table-column/><table:table-row><table:table-cell office:value-type="string"><text:p>{a}</text:p></table:table-cell></table:table-row>'
+                                     f'<table:table-row><table:table-cell office:value-type="string"><text:p>{b2}</text:p></table:table-cell></table:table-row></table:table></table:table-cell>')
+                    grow.append({"any": True})
+                    j += 1
+                    continue
                 if is_f and feature == "cell-annotation" and i == 1 and j == 0:
                     t = exp.text(tk.new("c"), s)
                     ann = "" if twin else f'<office:annotation><dc:creator>rev</dc:creator><dc:date>2024-01-01T00:00:00</dc:date><text:p>{exp.out(tk.new("m"))}</text:p></office:annotation>'
@@ -541,7 +554,13 @@ def build_ods(seed: int, feature: str | None = None, twin: bool = False):
         tables.append(f'<table:table table:name="{name}">{shapes}<table:table-column table:number-columns-repeated="{cols}"/>{"".join(trs)}</table:table>')
         exp.tables.append({"grid": grid, "unit": s + 1})
     exp.n_units = n_sheets
-    content = (f'<?xml version="1.0" encoding="UTF-8"?><office:document-content {NSDECL}><office:body><office:spreadsheet>{"".join(tables)}</office:spreadsheet></office:body></office:document-content>')
+    dde = ""
+    if risky == "dde-link":
+        # the cached result table of a DDE link, which Calc writes after the sheets: a table:table that is not a sheet
+        dde = ('<table:dde-links><table:dde-link><office:dde-source office:dde-application="soffice" office:dde-topic="/tmp/x.ods" office:dde-item="Sheet1.A1" office:automatic-update="true"/>'
+               f'<table:table><table:table-column/><table:table-row><table:table-cell office:value-type="string"><text:p>{exp.ignore(tk.new("u"))}</text:p></table:table-cell></table:table-row></table:table>'
+               '</table:dde-link></table:dde-links>')
+    content = (f'<?xml version="1.0" encoding="UTF-8"?><office:document-content {NSDECL}><office:body><office:spreadsheet>{"".join(tables)}{dde}</office:spreadsheet></office:body></office:document-content>')
     if risky == "no-meta":
         meta, exp.meta = None, {}
     return _pkg("ods", content, meta, None, files), exp
